@@ -147,7 +147,7 @@ def jobs(tier):
             continue
         spec, post = spec_for(op, n, a, m)
         con = Contract(comb_requires(), comb_assigns())
-        for c in comb_common(m):
+        for c in comb_common(m, props_rewind=('C02', 'C01')):   # sor/star/opt backtracking (C01) relies on a failed operator having restored the cursor
             con.add(c)
         for c in post:
             con.add(c)
